@@ -328,3 +328,31 @@ PROPS['C19'] = dict(
     outside='the text layout of wire show; well-formedness of provider-set variables through the real parser (processExpr is covered by C20, the loader is stubbed)',
     assumptions=COMMON_ASSUME + ['load, findInjectorBuild, processNewSet (returns the harness\'s set), writeAST, copyNonInjectorDecls and format.Source are stubs in H_checkgen'],
 )
+
+
+def _gen_copyast(pid, sp):
+    import subprocess, os
+    from runner import ensure_engine, workdir, GOENV
+    d = os.path.join(workdir(pid), 'gen')
+    os.makedirs(d, exist_ok=True)
+    subprocess.run([ensure_engine(), '-gen-copyast', os.path.join(d, 'h_copyast_gen.go')], env=GOENV, check=True)
+
+
+def copyast():
+    import os
+    from runner import VERIF
+    sp = spec('H_copyast', overlay=['harness/wire', 'harness/copyast', os.path.join(VERIF, 'work', 'C15', 'gen')], interp=INTERP_TYPES, label='H_copyast')
+    sp['pre'] = _gen_copyast
+    return sp
+
+
+PROPS['C15'] = dict(
+    level=MC,
+    quick=[copyast()],
+    thorough=[copyast()],
+    covers={'H_copyast': ['copied']},
+    validate=2,
+    bounds_text='one node of every go/ast node kind (enumerated from go/ast\'s type information on every run: 54 kinds with the Go toolchain of this image) with every scalar field (positions, tokens, strings, flags) symbolic and every child a leaf, in two variants (optional children present / nil); copyAST runs with the real astutil.Apply interpreted. One inductive step: if the children are copied correctly the node is; identifiers keep their identity',
+    outside='rewritePkgRefs\' qualifier rewriting and capture-avoiding renaming, copyNonInjectorDecls\' selection and order, printing (comments/positions after gofmt) — not covered in this revision; ast.File / ast.Package never reach copyAST; Ident.Obj (resolver link) is not syntax',
+    assumptions=['astutil.Apply is executed from its source; reflect.Indirect / FieldByName / Index / Interface are engine models', 'go/ast field comments mentioning nil mark optional children'],
+)
